@@ -110,6 +110,11 @@ def search(run, info):
     nsess = 400 if run.tier == "quick" else 8000
     sessions = [gen_session(rng, len(texts), 60) for _ in range(nsess)]
     # fixed regression sessions (the defects repaired earlier)
+    names = [n for n, _ in L.DOCS]
+    for a, b in (("unfinished-with-blank-lines", "unfinished-trimmed"), ("valid-with-blank-lines", "valid-trimmed")):
+        ia, ib = names.index(a), names.index(b)
+        for x, y in ((ia, ib), (ib, ia)):
+            sessions.append([("O", 1, True, 1, x), ("C", 1, True, 2, [y]), ("S", 1, 1, True), ("C", 1, True, 3, [x]), ("S", 2, 1, True)])
     sessions += [[("B", 1, k) for k in range(len(L.BAD_PARAMS))], [("N", n, k) for n in IMPL_NOTE for k in range(len(L.BAD_PARAMS))],
                  [("O", 1, True, 1, 0), ("X", 1, True), ("S", 1, 1, True), ("X", 1, True), ("X", 2, False), ("C", 1, True, 2, [1])],
                  [("A", 77)], [("Q", 1, "textDocument/hover")], [("C", 1, True, 1, [])], [("O", 1, True, 1, 0), ("C", 1, True, 2, [1, 0])],
